@@ -22,11 +22,6 @@ import (
 	"verif/txgen"
 )
 
-// Exclusion tag of the known finding "blockBeginner reads proposals and the fee option through
-// store singletons a CheckTx left aimed at the check state": while it is open, no governance
-// transaction is checked between a Commit and the next BeginBlock.
-const exclGov = "C07:stale-gov-check-state-at-begin"
-
 func TestMain(m *testing.M) {
 	run.Quiet()
 	os.Exit(m.Run())
@@ -360,8 +355,6 @@ func TestC07(t *testing.T) {
 		var g *hist.Gen
 		blocks := 0
 		var script [][]txgen.Tx
-		// generator-side view of the current check-state object (see execute): does it hold a governance check?
-		periodGov := false
 		out, st := execute(h, tr, func(w *hist.World) ([]hist.Step, []txgen.Tx, bool) {
 			if g == nil {
 				g = &hist.Gen{W: w, T: rt, Hostile: 3, Strange: 8, Kinds: hist.Profiles[prof], Excl: h.Excluded, Seen: map[string]int{}, TagsN: map[string]int{}}
@@ -393,31 +386,18 @@ func TestC07(t *testing.T) {
 			}
 			spec := g.DrawEnv(txs)
 			var steps []hist.Step
-			excl := func(kind string) bool { return isGovKind(kind) && h.Excluded(exclGov) }
 			push := func(at string, tx txgen.Tx) {
-				if isGovKind(tx.Kind) {
-					periodGov = true
-				}
 				steps = append(steps, hist.Step{Kind: "check", At: at, Tx: tx.Bytes, TxKind: tx.Kind, Replica: 1})
 			}
-			add := func(at string, k int) int {
+			add := func(at string, k int) {
 				n := []int{0, 0, 0, 1, 1, 2, 3}[u.N(7, "n@"+strings.SplitN(at, ":", 2)[0])]
 				for i := 0; i < n; i++ {
-					tx := drawCheck(rt, u, g, txs, at, k)
-					// known finding: BeginBlock must not run while the stores point at a check state holding governance writes
-					if (at == "before-begin" || at == "after-commit") && excl(tx.Kind) {
-						tx = g.Send()
-					}
-					push(at, tx)
+					push(at, drawCheck(rt, u, g, txs, at, k))
 				}
-				return n
 			}
 			// the realistic mempool flow: sometimes every transaction of the block is checked before it
 			if len(txs) > 0 && u.N(5, "mempoolflow") == 0 {
 				for _, tx := range txs {
-					if excl(tx.Kind) {
-						continue
-					}
 					push("before-begin", tx)
 				}
 			}
@@ -426,13 +406,8 @@ func TestC07(t *testing.T) {
 			for k := range txs {
 				add(fmt.Sprintf("after-tx:%d", k), k)
 			}
-			nEnd := add("after-end", len(txs))
-			staleRisk := nEnd > 0 && periodGov // stores stay aimed at this period's check state across Commit
-			periodGov = false                  // Commit: fresh check state object
-			nCommit := add("after-commit", len(txs))
-			if staleRisk && nCommit == 0 && h.Excluded(exclGov) {
-				push("after-commit", g.Send()) // benign check that aims the stores at the fresh check state
-			}
+			add("after-end", len(txs))
+			add("after-commit", len(txs))
 			steps = append(steps, hist.BlockStep(spec, txs))
 			return steps, txs, true
 		})
